@@ -5,8 +5,12 @@ model `SpecVerif.C12` (Drivers/C12.lean), plus the independent oracle: an
 explicit override/cache/getter state machine written from the property text.
 
 Case shapes (JSON):
-  {"kind": "sp", "cfg": "<ov><ca><fs><fd>", "host": "plain|spec|specann|specprep",
+  {"kind": "sp", "cfg": "<ov><ca><fs><fd>", "host": "plain|spec|specann|specprep" or a layout "d/sap",
    "hg": 1, "aae": 1, "getter": [tok...], "ops": ["r", "a i1", "d", "b", ...]}
+A layout is the inheritance chain of type(instance), base first, classes separated by `/`, each class a subset of
+the letters s (decorated with @spec_class) d (declares the spec_property) a (annotates `x: int`) p (defines
+`_prepare_x`), `-` for none; the four named hosts are the one-class layouts d, sd, sda, sdap. When several classes
+declare the property, the lower ones are copies of the one above made with `.getter()` / `.setter()`.
   {"kind": "cp", "cfg": "<ov><ca><ps><fs><fd>", "hg": 1, "aae": 1,
    "getter": [tok...], "ops": ["r c0", "r o1", "a o2 i1", "a c1 i2", "d o0", "d c2", "b"]}
 An op may be prefixed `@k `: rewind to the state after the first k operations of the
@@ -14,7 +18,8 @@ current path, then apply the op. The model side rewinds its (pure) state; the re
 rebuilds a fresh object and replays the k operations. One case can thus carry a whole
 tree of operation sequences (one protocol line per tree edge).
 Value tokens: i<int> (an int; i0 is falsy), s<int> (the str "s<int>"), M/E/U (MISSING/EMPTY/UNCHANGED),
-N/F/e/L (the falsy None / False / "" / []); getter tokens additionally !A !R !V !K !T (the getter raises
+N/F/e/L (the falsy None / False / "" / []); i97 / i96 / s3, s7, .. make the preparer of a host that has
+one raise TypeError / AttributeError / ValueError; getter tokens additionally !A !R !V !K !T (the getter raises
 that class) and z (a falsy value depending on the class the classproperty getter runs on: 0, "", None).
 "build" says how the descriptor is put together: "ctor" (everything through the constructor), "deco"
 (decorator-with-options, then .setter/.deleter), "chain-gsd"/"chain-dsg" (.getter/.setter/.deleter chains
@@ -36,6 +41,19 @@ REQUIRED_THEOREMS = [
     "SpecVerif.Props.C12.custom_accessors",
     "SpecVerif.Props.C12.getter_result_checked",
     "SpecVerif.Props.C12.reads_conform",
+    "SpecVerif.Props.C12.prepare_uses_preparer",
+    "SpecVerif.Props.C12.failed_op_changes_nothing",
+    "SpecVerif.Props.C12.failed_read_leaves_no_trace",
+    "SpecVerif.Props.C12.assign_preparer_error",
+    "SpecVerif.Props.C12.resolve_managed_iff",
+    "SpecVerif.Props.C12.resolve_onSpec_iff",
+    "SpecVerif.Props.C12.resolve_declares_irrelevant",
+    "SpecVerif.Props.C12.resolve_preparer",
+    "SpecVerif.Props.C12.inherited_reads_conform",
+    "SpecVerif.Props.C12.inherited_getter_result_checked",
+    "SpecVerif.Props.C12.resolveMI_nil_right",
+    "SpecVerif.Props.C12.resolveMI_managed_iff",
+    "SpecVerif.Props.C12.mi_inherited_reads_conform",
     "SpecVerif.Props.C12.cp_protocol",
     "SpecVerif.Props.C12.cp_read_protocol",
     "SpecVerif.Props.C12.cp_set_rejected",
@@ -55,7 +73,15 @@ RULE = (
     "edge (`@k op` rewinds to depth k; the real side rebuilds the object and replays), then a seeded "
     "malformed stream (getters returning sentinels / ill-typed values / raising, assignment of sentinels and ill-typed "
     "values incl. the falsy None/False/''/[]/0, falsy preparer results, no getter, allow_attribute_error off) with "
-    "sequences up to length 12; classproperty: 32 "
+    "sequences up to length 12; WHERE THE PROPERTY LIVES: every inheritance chain of one and two classes (each class "
+    "decorated with @spec_class or not, declaring the spec_property or not, annotating x or not, defining _prepare_x or "
+    "not; at least one declares; 200 layouts) x every sequence up to length 3 (quick) / 4 over {read, assign 97 (the "
+    "preparer raises), assign 2, delete, bump}, once with overridable+cache and getter results that make a preparer "
+    "raise ValueError / TypeError / AttributeError, once with one of the 16 combinations in rotation (main table, or "
+    "allow_attribute_error off with AttributeErrors from getter and preparer); every three-class chain (3584) to "
+    "depth 2 and multiple inheritance class Leaf(L, R) over all single-class L, R, Leaf (3584 shapes) to depth 2: all "
+    "at thorough, a seeded sample of 1000 each at quick; the random streams draw a named host or a random layout "
+    "(chains up to 4 classes, two base chains joined and continued) per case; classproperty: 32 "
     "(overridable, cache, cache_per_subclass, setter, deleter) combinations over a three-class chain A>B>C, every "
     "sequence up to length 3 (quick) / 4 (thorough) over a 13-letter alphabet of reads/assignments/deletions through classes and "
     "instances and bump, then seeded random sequences over the full 25-letter alphabet. A step is non-trivial when "
@@ -64,7 +90,9 @@ RULE = (
 EXHAUSTIVE = {"quick": True, "thorough": True}
 ASSUMPTIONS = [
     "getter, preparer, custom setter and deleter are deterministic functions of their arguments and the underlying state; the custom setter/deleter only record the call",
-    "managed annotation is a scalar type (int): no collection preparation, no dict-as-constructor-arguments branch of mutate_value",
+    "managed annotation is a scalar type (int): no collection preparation, no dict-as-constructor-arguments branch of mutate_value; the type's constructor (int()) does not raise",
+    "class hierarchies are linear chains, or two linear base chains joined by one class and continued linearly; every class declaring the property declares the same nominal configuration (a copy of the one above); no class attribute named x other than the property; a _prepare_x defined in a class is visible to it and everything below (ordinary attribute lookup)",
+    "the preparer is a deterministic function of the value (it may raise); it is called bound to the instance (checked by the harness's preparer)",
     "the instance __dict__ slot of the property is written only through the descriptor (no direct obj.__dict__ pokes); spec class not frozen; no invalidated_by (that is C11)",
     "a value assigned on a spec class reaches the property as the spec-class assignment layer delivers it (prepared, type-checked, sentinels dropped): that layer is the environment of C12, its own guarantees are C01/C03/C05",
     "a custom setter/deleter replaces storing/clearing (DESIGN C12 custom_accessors): the protocol state is then untouched",
@@ -79,6 +107,13 @@ DEEP_HOSTS = ("plain", "specprep")  # thorough tier: one op deeper on these two 
 MAIN_TABLE = ["i0", "i11", "F", "i13", "e", "i15", "N", "i17", "L", "i19", "i0", "i21"]
 # classproperty: `z` is a falsy value that still tells the class the getter ran on (0 / "" / None)
 CP_TABLE = ["z", "i11", "z", "i13", "F", "i15", "L", "i17", "N", "i19"]
+# layout trees: the first getter results make a preparer raise (ValueError, then after `bump bump` TypeError), so a
+# failed read followed by a read / a bump and a read / a deletion is inside the first three operations
+PREP_TABLE = ["s3", "i11", "i97", "e", "i96", "i13", "s7", "i15"]
+# ... and with allow_attribute_error off: an AttributeError of the preparer (96) is not the getter's, the getter's (!A) is
+AE_TABLE = ["i96", "!A", "i11", "F", "s3", "i13"]
+LAYOUT_ALPHABET = ["r", "a i97", "a i2", "d", "b"]  # `a i97`: the preparer raises while the assignment is delivered
+LAYOUT_CFG = "1100"  # overridable + cache: every layout is walked with it, and with one more combination in rotation
 BUILDS = ["deco", "ctor", "chain-gsd", "chain-dsg"]
 CP_SMALL = [
     "r c0", "r c1", "r c2", "r o1",
@@ -173,13 +208,63 @@ def err_name(e):
 
 
 def the_preparer(self, v):
-    """`_prepare_x` of the `specprep` host (mirrored by `thePreparer` in the driver and `o_prep` in the oracle)."""
+    """`_prepare_x` of the hosts that have one (mirrored by `thePreparer` in the driver and `o_prep` in the oracle).
+    It raises for 97 (TypeError), 96 (AttributeError) and the strs s3, s7, ... (ValueError, like `int("x")`)."""
+    if "_tab" not in getattr(self, "__dict__", ()):  # must be bound to the instance being read / assigned
+        raise RuntimeError("preparer called on something that is not the instance")
     if isinstance(v, int):  # bool included: False + 1000 == 1000
+        if v == 97:
+            raise TypeError("raised by the preparer")
+        if v == 96:
+            raise AttributeError("raised by the preparer")
         return _S["M"] if v == 99 else 0 if v == 98 else v + 1000
     if isinstance(v, str) and v:
         n = int(v[1:])
+        if n % 4 == 3:
+            raise ValueError("raised by the preparer")
         return n + 2000 if n % 2 == 0 else v
     return v
+
+
+# ---------------------------------------------------------------------------
+# layouts: the inheritance chain of type(instance)
+# ---------------------------------------------------------------------------
+
+NAMED_HOSTS = {"plain": "d", "spec": "sd", "specann": "sda", "specprep": "sdap"}
+CLASS_KINDS = ["-"] + [
+    "".join(ch for ch, on in zip("sdap", bits) if on) for bits in itertools.product((0, 1), repeat=4) if any(bits)
+]
+
+
+def parse_layout(host):
+    """-> (L, R, T): lists of letter strings, base first. A chain has L = R = None; with multiple inheritance
+    (`Lchain+Rchain>leaf/tail..`) T[0] is the class with the two bases L[-1], R[-1]."""
+    s = NAMED_HOSTS.get(host, host)
+
+    def chain(t):
+        return [("" if k == "-" else k) for k in t.split("/")] if t else []
+
+    if ">" in s:
+        bases, rest = s.split(">")
+        left, right = bases.split("+")
+        return chain(left), chain(right), chain(rest)
+    return None, None, chain(s)
+
+
+def layout_str(host):
+    left, right, tail = parse_layout(host)
+    j = lambda ks: "/".join(k or "-" for k in ks)  # noqa: E731
+    return j(tail) if left is None else f"{j(left)}+{j(right)}>{j(tail)}"
+
+
+def all_layouts(n):
+    """every chain of n classes in which at least one class declares the property"""
+    return ["/".join(ks) for ks in itertools.product(CLASS_KINDS, repeat=n) if any("d" in k for k in ks)]
+
+
+def all_mi_layouts():
+    """every `class Leaf(L, R)` over single-class bases in which at least one of the three declares the property"""
+    return [f"{a}+{b}>{c}" for a, b, c in itertools.product(CLASS_KINDS, repeat=3) if any("d" in k for k in (a, b, c))]
 
 
 # ---------------------------------------------------------------------------
@@ -232,19 +317,41 @@ def sp_class(cfg, host, hg, aae, build="deco"):
     cls = _S["classes"].get(key)
     if cls is not None:
         return cls
+    if len(_S["classes"]) > 6000:  # the search generator is endless: keep the memo bounded
+        _S["classes"].clear()
     ov, ca, fs, fd = (c == "1" for c in cfg)
-    p = build_prop(
-        _S["spec_property"], _fget if hg else None, _fset if fs else None, _fdel if fd else None,
-        dict(overridable=ov, cache=ca, allow_attribute_error=bool(aae)), build,
-    )
-    ns = {"x": p}
-    if host in ("specann", "specprep"):
-        ns["__annotations__"] = {"x": int}
-    if host == "specprep":
-        ns["_prepare_x"] = the_preparer
-    cls = type("Host_" + host, (), ns)
-    if host != "plain":
-        cls = _S["spec_class"](bootstrap=True)(cls)
+    desc = [None]
+
+    def make(kind, name, bases):
+        ns = {}
+        if "d" in kind:
+            if desc[0] is None:
+                desc[0] = build_prop(
+                    _S["spec_property"], _fget if hg else None, _fset if fs else None, _fdel if fd else None,
+                    dict(overridable=ov, cache=ca, allow_attribute_error=bool(aae)), build,
+                )
+            else:  # declared once more: the usual idiom, a copy of the property made with .getter() / .setter()
+                desc[0] = desc[0].getter(desc[0].fget) if hg else desc[0].setter(desc[0].fset)
+            ns["x"] = desc[0]
+        if "a" in kind:
+            ns["__annotations__"] = {"x": int}
+        if "p" in kind:
+            ns["_prepare_x"] = the_preparer
+        c = type(f"{name}_{kind or 'none'}", bases, ns)
+        if "s" in kind:
+            c = _S["spec_class"](bootstrap=True)(c)
+        return c
+
+    def make_chain(kinds, name, bases):
+        for i, kind in enumerate(kinds):
+            bases = (make(kind, f"{name}{i}", bases),)
+        return bases
+
+    left, right, tail = parse_layout(host)
+    if left is None:
+        cls = make_chain(tail, "K", ())[0]
+    else:
+        cls = make_chain(tail, "K", make_chain(left, "L", ()) + make_chain(right, "R", ()))[0]
     _S["classes"][key] = cls
     return cls
 
@@ -357,20 +464,12 @@ class Chain:
 
 
 def sp_flags(case):
-    host = case["host"]
-    return (
-        case["cfg"]
-        + ("0" if host == "plain" else "1")
-        + ("1" if host in ("specann", "specprep") else "0")
-        + ("1" if host == "specprep" else "0")
-        + str(case.get("hg", 1))
-        + str(case.get("aae", 1))
-    )
+    return case["cfg"] + str(case.get("hg", 1)) + str(case.get("aae", 1))
 
 
 def model_lines(case):
     if case["kind"] == "sp":
-        head = "sp " + sp_flags(case) + " " + " ".join(case["getter"])
+        head = "sp " + sp_flags(case) + " " + layout_str(case["host"]) + " " + " ".join(case["getter"])
     else:
         head = "cp " + case["cfg"] + str(case.get("hg", 1)) + str(case.get("aae", 1)) + " " + " ".join(case["getter"])
     return [head] + list(case["ops"])
@@ -403,25 +502,43 @@ def replay(case, path):
     return state, apply
 
 
-def real_lines(case):
+_OBS = {"case": None, "obs": None}
+
+
+def observe(case):
+    """Run the case on the real code: -> (initial state, rows); one row (k, op, state before, result, state after)
+    per protocol line, None for a malformed line. `real_lines` prints it and the oracle judges it; the last
+    observation is kept so that the oracle, called right after `real_lines` on the same case object, judges that
+    very execution instead of paying for a second one."""
+    if _OBS["case"] is case:
+        return _OBS["obs"]
     state, apply = fresh(case)
-    out = ["ok ;; " + state()]
-    path = []
+    s0 = state()
+    states, path, rows = [s0], [], []
     for line in case["ops"]:
         k, op = split_op(line, len(path))
         if k > len(path):
-            out.append("bad-op")
+            rows.append(None)
             continue
         if k != len(path):
             path = path[:k]
+            del states[k + 1:]
             state, apply = replay(case, path)
         path.append(op)
         try:
             r = apply(op)
         except Exception as e:  # noqa: BLE001
             r = "err " + err_name(e)
-        out.append(r + " ;; " + state())
-    return out
+        after = state()
+        rows.append((k, op, states[k], r, after))
+        states.append(after)
+    _OBS["case"], _OBS["obs"] = case, (s0, rows)
+    return s0, rows
+
+
+def real_lines(case):
+    s0, rows = observe(case)
+    return ["ok ;; " + s0] + ["bad-op" if row is None else row[3] + " ;; " + row[4] for row in rows]
 
 
 # ---------------------------------------------------------------------------
@@ -439,16 +556,62 @@ def o_conforms(t):
 
 
 def o_prep(t):
-    """the attribute's preparer, on tokens"""
+    """the attribute's preparer, on tokens; `!T` / `!A` / `!V`: it raises that class"""
     if t[0] == "i":
         n = int(t[1:])
+        if n == 97:
+            return "!T"
+        if n == 96:
+            return "!A"
         return "M" if n == 99 else "i0" if n == 98 else f"i{n + 1000}"
     if t == "F":
         return "i1000"
     if t[0] == "s":
         n = int(t[1:])
+        if n % 4 == 3:
+            return "!V"
         return f"i{n + 2000}" if n % 2 == 0 else t
     return t
+
+
+def o_readings(host):
+    """What the property text makes of a class hierarchy: the list of admissible (on a spec class, managed, has
+    preparer), one reading for the whole case. The spec class of an instance is the most derived decorated class of
+    its MRO; `x` is a managed attribute of it iff that class or a class it derives from is a spec class annotating
+    `x` -- whichever class declares the property. "The attribute's preparer": a `_prepare_x` defined in the (most
+    derived) spec class that annotates `x`, or in a class that one derives from, certainly is one; none anywhere in
+    the hierarchy certainly is none; in between (defined only further down, or on the other side of a multiple
+    inheritance) the text does not decide and both readings are admitted. Likewise when the only annotating spec
+    classes are not among the ancestors of the instance's spec class (other side of a multiple inheritance)."""
+    left, right, tail = parse_layout(host)
+    # nodes: (kind, ancestors-or-self as indices into `nodes`), most derived first (the MRO)
+    nodes = []
+    if left is None:
+        n = len(tail)
+        for i in range(n - 1, -1, -1):
+            nodes.append((tail[i], set(range(n - 1 - i, n))))
+    else:
+        nt, nl, nr = len(tail), len(left), len(right)
+        total = nt + nl + nr
+        for j in range(nt - 1, -1, -1):
+            nodes.append((tail[j], set(range(nt - 1 - j, total))))
+        for i in range(nl - 1, -1, -1):
+            nodes.append((left[i], set(range(nt + nl - 1 - i, nt + nl))))
+        for i in range(nr - 1, -1, -1):
+            nodes.append((right[i], set(range(nt + nl + nr - 1 - i, total))))
+    spec_idx = [i for i, (k, _) in enumerate(nodes) if "s" in k]
+    if not spec_idx:
+        return [(False, False, False)]
+    mine = nodes[spec_idx[0]][1]  # the instance's spec class and everything it derives from
+    annot = [i for i in sorted(mine) if "s" in nodes[i][0] and "a" in nodes[i][0]]
+    anywhere = any("s" in k and "a" in k for k, _ in nodes)
+    if not annot:
+        return [(True, False, False)] + ([(True, True, True), (True, True, False)] if anywhere else [])
+    if any("p" in nodes[i][0] for i in nodes[annot[0]][1]):
+        return [(True, True, True)]
+    if any("p" in k for k, _ in nodes):
+        return [(True, True, True), (True, True, False)]
+    return [(True, True, False)]
 
 
 def o_val_any(out):
@@ -459,9 +622,7 @@ def sp_options(case, st, op, n):
     """All (expected output | predicate, new protocol state, log entry or None) the text allows.
     Protocol state: (override, cached) of tokens / None / ANY."""
     ov, ca, fs, fd = (c == "1" for c in case["cfg"])
-    host = case["host"]
-    managed = host in ("specann", "specprep")
-    prep = host == "specprep"
+    on_spec, managed, prep = case["_reading"]
     override, cached = st
     c = op[0]
     if c == "b":
@@ -495,6 +656,11 @@ def sp_options(case, st, op, n):
             v = g
         if lenient:  # the text does not say what a sentinel becomes on a managed attribute
             return [("err ValueError", st, None), (o_val_any, "bind-cached-maybe", None)]
+        if managed and v in EXC:  # the preparer raised: that is what the read raises, and nothing is cached
+            res = [("err " + EXC[v].__name__, st, None)]
+            if v == "!A" and not case.get("aae", 1):  # whether allow_attribute_error covers the preparer is not in the text
+                res.append(("err NestedAttributeError", st, None))
+            return res
         if managed and not o_conforms(v):
             return [("err ValueError", st, None)]
         if not ca:
@@ -506,7 +672,7 @@ def sp_options(case, st, op, n):
         v = op[2:]
         stored = v
         loose = False
-        if host != "plain":
+        if on_spec:
             if managed:
                 if v in SENT:
                     loose = True
@@ -523,6 +689,12 @@ def sp_options(case, st, op, n):
                 res.append(("err AttributeError", st, None))
             if fs:
                 res.append(("ok", st, "S:*"))
+            return res
+        if managed and stored in EXC:
+            # the preparer raised while the value was being delivered: that exception, nothing changes
+            res = [("err " + EXC[stored].__name__, st, None)]
+            if not ov and not fs:
+                res.append(("err AttributeError", st, None))
             return res
         if managed and not o_conforms(stored):
             # ill-typed value on a managed attribute: the spec-class type check (C03) may reject it first
@@ -544,16 +716,10 @@ def sp_options(case, st, op, n):
     raise ValueError(op)
 
 
-def oracle_step(case, options, ost, op, state_fn, apply):
-    """One operation on the real object judged against the set of protocol states `ost` =
-    (states, n, explogs). Returns (new ost, violation message or None)."""
+def oracle_step(case, options, ost, op, before, out, after):
+    """One observed operation (state before, result, state after on the real object) judged against the set of
+    protocol states `ost` = (states, n, explogs). Returns (new ost, violation message or None)."""
     states, n, explogs = ost
-    before = state_fn()
-    try:
-        out = apply(op)
-    except Exception as e:  # noqa: BLE001
-        out = "err " + err_name(e)
-    after = state_fn()
     new_states, new_logs = set(), {}
     wanted = []
     for st in states:
@@ -588,28 +754,26 @@ def oracle_step(case, options, ost, op, state_fn, apply):
 
     if not any(log_ok(lg) for lg in new_logs):
         return ost, f"{op!r}: accessor-call log is {real_log!r}, protocol expects one of {sorted(new_logs)}"
-    # "raises ... and changes nothing"
-    if out.startswith("err") and op[0] in "ad" and before != after:
+    # "raises ... and changes nothing"; a read that raises has not produced a value, so it has cached none either
+    if out.startswith("err") and op[0] in "adr" and before != after:
         return ost, f"{op!r}: raised {out[4:]} but the state changed: {before!r} -> {after!r}"
     return (new_states, n, new_logs), None
 
 
-def run_oracle(case, options, init_state):
-    """Set-of-states checker walking the case's tree of operation sequences on the real code
-    (fresh object + replay at every rewind). `options(case, st, op, n)` as in sp_options."""
-    state_fn, apply = fresh(case)
+def run_oracle(case, options, init_state, obs):
+    """Set-of-states checker walking the case's tree of operation sequences as observed on the real code
+    (`observe`: fresh object + replay at every rewind). `options(case, st, op, n)` as in sp_options."""
     stack = [({init_state}, 0, {(): None})]
     path = []
-    for line in case["ops"]:
-        k, op = split_op(line, len(path))
-        if k > len(path):
+    for line, row in zip(case["ops"], obs[1]):
+        if row is None:
             return [f"malformed case: {line!r} at depth {len(path)}"]
+        k, op, before, out, after = row
         if k != len(path):
             path = path[:k]
             del stack[k + 1:]
-            state_fn, apply = replay(case, path)
         path.append(op)
-        ost, msg = oracle_step(case, options, stack[-1], op, state_fn, apply)
+        ost, msg = oracle_step(case, options, stack[-1], op, before, out, after)
         if msg:
             return [f"sequence {path}: op#{len(path) - 1} " + msg]
         stack.append(ost)
@@ -676,9 +840,16 @@ def cp_options(case, st, op, n):
 
 
 def oracle(case):
+    obs = observe(case)
     if case["kind"] == "sp":
-        return run_oracle(case, sp_options, (None, None))
-    return run_oracle(case, cp_options, ())
+        first = None
+        for reading in o_readings(case["host"]):
+            v = run_oracle({**case, "_reading": reading}, sp_options, (None, None), obs)
+            if not v:
+                return []
+            first = first or v
+        return first
+    return run_oracle(case, cp_options, (), obs)
 
 
 # ---------------------------------------------------------------------------
@@ -688,21 +859,44 @@ def oracle(case):
 SP_CFGS = ["".join(b) for b in itertools.product("01", repeat=4)]
 CP_CFGS = ["".join(b) for b in itertools.product("01", repeat=5)]
 G_POOL = ["i10", "i11", "i12", "i13", "s1", "s2", "s3", "s4", "M", "E", "U", "!A", "!R", "!K", "i99",
-          "i0", "N", "F", "e", "L", "i98", "z"]
-A_POOL = ["i1", "i2", "i3", "s1", "s2", "M", "E", "U", "i99", "i0", "N", "F", "e", "L", "i98"]
+          "i0", "N", "F", "e", "L", "i98", "z", "i97", "i96", "s7"]
+A_POOL = ["i1", "i2", "i3", "s1", "s2", "M", "E", "U", "i99", "i0", "N", "F", "e", "L", "i98", "i97", "i96", "s3"]
+
+
+def random_layout(rng):
+    """a chain of 1..4 classes, or two base chains joined by a class (multiple inheritance) and continued below it;
+    at least one class declares the property"""
+    if rng.random() < 0.3:
+        parts = [[rng.choice(CLASS_KINDS) for _ in range(rng.choice((1, 1, 2)))] for _ in range(3)]
+    else:
+        parts = [[rng.choice(CLASS_KINDS) for _ in range(rng.choice((1, 2, 2, 3, 3, 3, 4)))]]
+    flat = [(p, i) for p in parts for i in range(len(p))]
+    if not any("d" in p[i] for p, i in flat):
+        p, i = rng.choice(flat)
+        p[i] = "".join(ch for ch in "sdap" if ch == "d" or ch in p[i])
+    if len(parts) == 3:
+        if "s" not in parts[2][0]:
+            # Shape left out: an UNDECORATED class joining two bases with a decorated class below it. The class below
+            # inherits only the left base's attrs (for_class goes through getattr(parent, "__spec_class__")) while its
+            # generated __init__ walks the whole MRO, so constructing it raises KeyError when the right base manages
+            # an attribute the left one does not -- a constructor matter (C09's subject), observed on the unchanged
+            # tree, nothing a spec_property does.
+            parts[2] = [parts[2][0]] + [k.replace("s", "") or "-" for k in parts[2][1:]]
+        return "/".join(parts[0]) + "+" + "/".join(parts[1]) + ">" + "/".join(parts[2])
+    return "/".join(parts[0])
 
 
 def sp_random(rng, malformed, maxlen):
     cfg = rng.choice(SP_CFGS)
-    host = rng.choice(HOSTS)
+    host = rng.choice(HOSTS) if rng.random() < 0.5 else random_layout(rng)
     if malformed:
         tab = [rng.choice(G_POOL) for _ in range(rng.randint(1, 5))]
         hg = 0 if rng.random() < 0.08 else 1
         aae = 0 if rng.random() < 0.3 else 1
         pool = ["r", "r", "d", "b", "b"] + ["a " + v for v in A_POOL]
     else:
-        tab, hg, aae = MAIN_TABLE, 1, 1
-        pool = SP_ALPHABET + ["r", "a F", "a i1"]
+        tab, hg, aae = (MAIN_TABLE if rng.random() < 0.5 else PREP_TABLE), 1, 1
+        pool = SP_ALPHABET + ["r", "a F", "a i1", "a i97"]
     ops = [rng.choice(pool) for _ in range(rng.randint(1, maxlen))]
     return {"kind": "sp", "cfg": cfg, "host": host, "hg": hg, "aae": aae, "build": rng.choice(BUILDS),
             "getter": list(tab), "ops": ops, "origin": "sp-malformed" if malformed else "sp-random"}
@@ -747,6 +941,34 @@ def gen_cases(tier, rng):
                 yield {"kind": "sp", "cfg": cfg, "host": host, "hg": 1, "aae": 1, "build": BUILDS[i % 4],
                        "getter": MAIN_TABLE, "ops": tree_ops(list(prefix), SP_ALPHABET, depth),
                        "origin": "sp-exhaustive"}
+    # --- spec_property, every layout of one and two classes (where the property is declared x which class is
+    # decorated / annotates / defines the preparer): the full tree of sequences up to lay_len over LAYOUT_ALPHABET,
+    # once with overridable+cache and a getter whose results make a preparer raise, once with one of the 16
+    # combinations (rotating) and the main table / AE_TABLE; every three-class chain and every `class Leaf(L, R)`
+    # to depth 2 (thorough), a seeded sample of 1000 each (quick)
+    lay_len = 3 if tier == "quick" else 4
+    for i, host in enumerate(all_layouts(1) + all_layouts(2)):
+        yield {"kind": "sp", "cfg": LAYOUT_CFG, "host": host, "hg": 1, "aae": 1, "build": BUILDS[i % 4],
+               "getter": PREP_TABLE, "ops": tree_ops([], LAYOUT_ALPHABET, lay_len), "origin": "sp-layout"}
+        j = i // 2  # consecutive layouts share the rotating combination: one with the main table, one with AE_TABLE
+        yield {"kind": "sp", "cfg": SP_CFGS[j % 16], "host": host, "hg": 1, "aae": 1 - i % 2, "build": BUILDS[(i // 4) % 4],
+               "getter": AE_TABLE if i % 2 else MAIN_TABLE, "ops": tree_ops([], LAYOUT_ALPHABET, lay_len),
+               "origin": "sp-layout"}
+    # multiple inheritance `class Leaf(L, R)`: a seeded sample (quick) / all (thorough) of the 3584 shapes, depth 2
+    mi = all_mi_layouts()
+    if tier == "quick":
+        mi = rng.sample(mi, 1000)
+    for i, host in enumerate(mi):
+        yield {"kind": "sp", "cfg": SP_CFGS[(5 * i) % 16] if i % 2 else LAYOUT_CFG, "host": host, "hg": 1,
+               "aae": 1, "build": BUILDS[i % 4], "getter": PREP_TABLE if i % 4 < 2 else MAIN_TABLE,
+               "ops": tree_ops([], LAYOUT_ALPHABET, 2), "origin": "sp-layout-mi"}
+    chains3 = all_layouts(3)
+    if tier == "quick":
+        chains3 = rng.sample(chains3, 1000)
+    for i, host in enumerate(chains3):
+        yield {"kind": "sp", "cfg": SP_CFGS[(5 * i) % 16] if i % 2 else LAYOUT_CFG, "host": host, "hg": 1,
+               "aae": 1, "build": BUILDS[i % 4], "getter": PREP_TABLE if i % 4 < 2 else MAIN_TABLE,
+               "ops": tree_ops([], LAYOUT_ALPHABET, 2), "origin": "sp-layout3"}
     for _ in range(n_sp_rand):
         yield sp_random(rng, False, 12)
     for _ in range(n_sp_mal):
@@ -800,8 +1022,15 @@ def extra(tier, rng):
         d = sp_len + 1 if (tier == "thorough" and host in DEEP_HOSTS) else sp_len
         n_sp += len(SP_CFGS) * sum(len(SP_ALPHABET) ** k for k in range(2, d + 1))
     n_cp = len(CP_CFGS) * sum(len(CP_SMALL) ** k for k in range(1, cp_len + 1))
+    lay_len = 3 if tier == "quick" else 4
+    n_lay = 2 * (len(all_layouts(1)) + len(all_layouts(2))) * sum(len(LAYOUT_ALPHABET) ** k for k in range(1, lay_len + 1))
+    per2 = sum(len(LAYOUT_ALPHABET) ** k for k in range(1, 3))
+    n_lay += (2000 if tier == "quick" else len(all_mi_layouts()) + len(all_layouts(3))) * per2
     return {"evaluations": 0, "info": {
         "spec_property_sequences_exhaustive": n_sp, "classproperty_sequences_exhaustive": n_cp,
+        "spec_property_layout_sequences": n_lay,
+        "layouts": {"chains_1_2": len(all_layouts(1)) + len(all_layouts(2)), "chains_3": len(all_layouts(3)),
+                    "multiple_inheritance": len(all_mi_layouts())},
         "note": "each tree edge is one compared protocol line; every sequence of the tree is judged by the oracle",
     }}
 
@@ -841,7 +1070,26 @@ def nontrivial(case, real):
 def tags(case, real):
     t = [f"origin:{case.get('origin', 'corpus')}", f"build:{case['kind']}:{case.get('build', 'deco')}"]
     if case["kind"] == "sp":
-        t.append("host:" + case["host"])
+        host = case["host"]
+        left, right, tail = parse_layout(host)
+        if host in NAMED_HOSTS:
+            t.append("host:" + host)
+        elif left is None:
+            t.append(f"host:chain{len(tail)}")
+        else:
+            t.append("host:multiple-inheritance")
+        readings = o_readings(host)
+        t.append("reading:" + ("ambiguous" if len(readings) > 1 else
+                               "plain" if not readings[0][0] else "unmanaged" if not readings[0][1] else
+                               "managed+preparer" if readings[0][2] else "managed"))
+        ks = tail if left is None else left + right + tail
+        declaring = [k for k in ks if "d" in k]
+        if readings[0][1] and declaring:
+            # where the (effective) declaration sits relative to management: on a class that is itself a spec class
+            # annotating x, on another spec class, or on a plain class (mixin)
+            d = declaring[-1]
+            t.append("declared-on:" + ("managing-class" if "s" in d and "a" in d else "other-spec-class" if "s" in d
+                                       else "plain-class"))
     depth = 0
     for line in case["ops"]:
         k, _ = split_op(line, depth)
@@ -858,11 +1106,19 @@ def tags(case, real):
             t.append(f"falsy-assign:{case['kind']}")
         if head.startswith("err"):
             t.append(f"{case['kind']}:{head.replace(' ', ':')}")
+            if case["kind"] == "sp" and readings == [(True, True, True)]:
+                # the preparer raised: on a read of a fresh getter result, or while an assignment was delivered
+                if op[0] == "r" and pre.split(" ;; ")[0] == "-":
+                    g = case["getter"][int(pre.split(" ;; ")[1]) % len(case["getter"])]
+                    if g not in EXC and g not in SENT and g != "z" and o_prep(g) in EXC:
+                        t.append("preparer-raised:read")
+                elif op[0] == "a" and op[2:] not in SENT and o_prep(op[2:]) in EXC:
+                    t.append("preparer-raised:assign")
     return t
 
 
 MANIFEST_ENTRY = {
-    "level_text": "Lean 4 proof, for a universally quantified configuration (overridable, cache, custom setter, custom deleter, plain/spec host, managed annotation, preparer, getter present, allow_attribute_error: all combinations at once) and operation sequences of any length, that the Impl model of spec_property.__get__/__set__/__delete__ (one instance-dict slot) refines the override/cache/getter protocol of the property text (ghost override and cache; invariant relating the slot to them): a read returns the override if set, else the value cached since the last deletion when caching is on, else the prepared and type-checked getter result on current state; cached and overridden values are stable under changes of the underlying state; assignment with neither overridable nor a setter raises AttributeError and changes nothing; deletion clears or raises; custom accessors are called exactly once and leave the slot alone; every value read on a managed spec-class attribute conforms to the annotation; the same protocol per cache key for classproperty over an arbitrary set of classes, per-subclass independence over whole operation sequences, a single shared slot otherwise, instance access acting on type(obj). The model is tied to /repo on every run by executing EVERY operation sequence up to length 5 (quick tier) / 6-7 (thorough) over {read, assign v1, assign v2, delete, bump} for all 16 option combinations on four hosts (and the classproperty analogue, 32 combinations over a three-class chain, length 3 / 4) on the real descriptors and on the model, with falsy values (0, False, '', None, []) in every value position and the descriptor built in four ways (constructor, decorator with options, two .getter/.setter/.deleter chain orders), comparing value / exception class / slot or cache dict / accessor-call log after every step; an independent explicit state machine written from the property text judges every case.",
-    "level_note": "Trusted: Lean kernel; axioms propext/Classical.choice/Quot.sound only; the hand-written model (incl. the spec-class assignment layer in front of the descriptor) and the correspondence harness. The theorems are about the model; the per-run correspondence ties them to the code. Not covered: invalidated_by (C11), warn_on_override, frozen spec classes, collection-typed annotations, plain `Cls.x = v` rebinding of a classproperty.",
+    "level_text": "Lean 4 proof, for a universally quantified configuration (overridable, cache, custom setter, custom deleter, plain/spec host, managed annotation, preparer, getter present, allow_attribute_error: all combinations at once) and operation sequences of any length, that the Impl model of spec_property.__get__/__set__/__delete__ (one instance-dict slot) refines the override/cache/getter protocol of the property text (ghost override and cache; invariant relating the slot to them): a read returns the override if set, else the value cached since the last deletion when caching is on, else the prepared and type-checked getter result on current state; cached and overridden values are stable under changes of the underlying state; assignment with neither overridable nor a setter raises AttributeError and changes nothing; deletion clears or raises; custom accessors are called exactly once and leave the slot alone; every value read on a managed spec-class attribute conforms to the annotation; an operation that raises (getter, preparer -- which may raise --, type check, assignment layer, __set__, __delete__) leaves slot, underlying state and log exactly as they were, so a failed read leaves no trace; the host flags are a function (resolve / resolveMI, mirroring spec_class.bootstrap for one attribute) of the inheritance hierarchy of type(instance): managed iff some spec class of the chain annotates the attribute, wherever the descriptor is declared (plain mixin, un-annotating spec parent, subclass), also across a class joining two base chains; the same protocol per cache key for classproperty over an arbitrary set of classes, per-subclass independence over whole operation sequences, a single shared slot otherwise, instance access acting on type(obj). The model is tied to /repo on every run by executing EVERY operation sequence up to length 5 (quick tier) / 6-7 (thorough) over {read, assign v1, assign v2, delete, bump} for all 16 option combinations on four hosts (and the classproperty analogue, 32 combinations over a three-class chain, length 3 / 4) on the real descriptors and on the model, every sequence up to length 3 / 4 on all 200 one- and two-class layouts (which class is decorated / declares the property / annotates / defines the preparer) with getter results and assigned values that make the preparer raise, three-class chains and multiple-inheritance shapes to depth 2, with falsy values (0, False, '', None, []) in every value position and the descriptor built in four ways (constructor, decorator with options, two .getter/.setter/.deleter chain orders), comparing value / exception class / slot or cache dict / accessor-call log after every step; an independent explicit state machine written from the property text judges every case.",
+    "level_note": "Trusted: Lean kernel; axioms propext/Classical.choice/Quot.sound only; the hand-written model (incl. the spec-class assignment layer in front of the descriptor and the one-attribute model of the class bootstrap) and the correspondence harness. The theorems are about the model; the per-run correspondence ties them to the code. Not covered: invalidated_by (C11), warn_on_override, frozen spec classes, collection-typed annotations, a raising type constructor, class hierarchies other than chains / two joined chains, plain `Cls.x = v` rebinding of a classproperty.",
     "technique": "Lean 4 refinement proof (ghost-state invariant, induction over operation sequences) over a hand-written model; exhaustive small-scope differential correspondence against the real descriptors",
 }
